@@ -12,7 +12,7 @@ import warnings
 
 from harness.common import Run, coq_list
 
-CONE = ["Settings.v", "SettingsFacts.v"]
+CONE = ["Settings.v", "SettingsFacts.v", "SettingsFacts2.v"]
 PROPS = "props/C16.v"
 INIT = (0, 1, 2)
 DISP = [(False, True), (True, True), (False, False), (True, False)]  # dispatcher value v = 1 + index
